@@ -165,7 +165,9 @@ func (w *Webhook) Handle(
 
 	// Create patch if not equal.
 	if !isEqual {
-		patch, err := cmp.CreateJSONPatch(rj, newRj)
+		// The patch is applied by the apiserver to the object exactly as it was submitted,
+		// which may omit objects that the typed object always encodes.
+		patch, err := cmp.CreateJSONPatch(json.RawMessage(req.Object.Raw), newRj)
 		if err != nil {
 			return nil, errors.Wrapf(err, "cannot create jsonpatch")
 		}
